@@ -6,6 +6,7 @@ pub mod local;
 pub mod timer;
 pub mod fall;
 pub mod conc;
+pub mod text;
 use crate::Area;
 pub fn lookup(name: &str) -> Option<Box<dyn Area>> {
     match name {
@@ -16,6 +17,7 @@ pub fn lookup(name: &str) -> Option<Box<dyn Area>> {
         "local" => Some(Box::new(local::LocalArea)),
         "timer" => Some(Box::new(timer::TimerArea)),
         "fall" => Some(Box::new(fall::FallArea)),
+        "text" => Some(Box::new(text::TextArea)),
         "catom" => Some(Box::new(conc::ConcAtomic { kinds: &["counter", "intcounter", "gauge", "intgauge"] })),
         "catomc" => Some(Box::new(conc::ConcAtomic { kinds: &["counter", "intcounter"] })),
         "catomg" => Some(Box::new(conc::ConcAtomic { kinds: &["gauge", "intgauge"] })),
